@@ -167,7 +167,7 @@ def _fancy_nd(shape, tag):
         d = shape[dim]
         desc = list(range(d - 1, -1, -2))                 # [4, 2, 0]
         uns = [d - 2, d - 1, 0] if d >= 3 else [d - 1, 0]   # unsorted
-        for li, (lst, asnp) in enumerate([(desc, False), (uns, True), ([d - 1, max(d - 2, 0)], True)]):
+        for li, (lst, asnp) in enumerate([(desc, False), (uns, True), ([d - 1, max(d - 2, 0)], True), ([d - 1, 0, d - 1], False)]):   # the last one repeats a position: last writer wins
             if len(lst) < 2 and d >= 2:
                 lst = [d - 1, 0]
             idx = [({"l": lst, "np": asnp} if i == dim else ({"i": shape[i] - 1} if (i + li) % 2 == 0 else dict(SL))) for i in range(nd)]
